@@ -71,7 +71,7 @@ func (q *PriorityQueue) Push(val *rtp.Packet, priority uint16) {
 
 		return
 	}
-	if priority < q.next.priority {
+	if priority <= q.next.priority {
 		newPq.next = q.next
 		q.next.prev = newPq
 		q.next = newPq
